@@ -99,6 +99,19 @@ def check_case(case, ctx):
     if st == "exc":
         ctx.violation(f"C16/constructor-raises-{type(d).__name__}", "Dataset construction raised " + exc_desc(d), case)
         return
+    # inputs without any element have no Dataset: documented EmptyDatasetException, nothing else, no object
+    if gen.digest(ds0)[0] in "01":
+        for label, build in (("no ranking", lambda: ck.Dataset([])), ("empty rankings only", lambda: ck.Dataset([ck.Ranking([]), ck.Ranking([])])),
+                             ("from_raw_list without element", lambda: ck.Dataset.from_raw_list([[], []]))):
+            ste, res = call(build)
+            ctx.count("element_less_inputs")
+            if ste == "ok":
+                probs0 = common.dataset_problems(res)
+                if probs0 or res.nb_elements != 0:
+                    ctx.violation("C16/element-less-input-gives-inconsistent-dataset", f"{label}: {probs0[:1]}", case)
+            elif type(res).__name__ != "EmptyDatasetException":
+                ctx.violation(f"C16/element-less-input-raises-{type(res).__name__}", f"{label}: {exc_desc(res)} instead of "
+                              "the documented EmptyDatasetException", case)
     model = model_normalise(ds0)
     ctx.count("histories")
     ctx.count("names:" + case["names_kind"])
